@@ -50,16 +50,17 @@
 
 
 import ast
-import functools as ft
+import contextlib
 import hashlib
+import importlib._bootstrap_external
 import sys
+import threading
 from collections.abc import Sequence
 from importlib.abc import MetaPathFinder
 from importlib.machinery import SourceFileLoader
 from importlib.util import cache_from_source, decode_source
 from inspect import isclass
 from typing import Optional, Union
-from unittest.mock import patch
 
 
 # The name of this function is magical
@@ -221,16 +222,56 @@ class _JaxtypingLoader(SourceFileLoader):
         )
 
     def get_code(self, fullname):
-        # Use a custom optimization marker - the import lock should make this monkey
-        # patch safe.
+        # Use a custom optimization marker.
         # Only patch whilst obtaining this module's own code object (reading or writing
         # its cached bytecode), not whilst executing the module: any other modules
         # imported from inside the module body must use their own cache files.
-        with patch(
-            "importlib._bootstrap_external.cache_from_source",
-            ft.partial(_optimized_cache_from_source, self._typechecker.get_hash()),
-        ):
+        with _patch_cache_from_source(self._typechecker.get_hash()):
             return super().get_code(fullname)
+
+
+# Import locks are per-module, so whilst one thread is inside `get_code` above, other
+# threads may be importing other modules -- instrumented or not. So the monkey patch
+# (a) only changes the cache file name for the thread(s) that asked for it, and (b) is
+# installed by the first thread to need it and removed by the last one to finish,
+# regardless of the order in which they finish.
+_cache_tag = threading.local()
+_cache_patch_lock = threading.Lock()
+_cache_patch_count = 0
+_cache_patch_original = None
+
+
+def _thread_aware_cache_from_source(path, debug_override=None, *, optimization=None):
+    typechecker_hash = getattr(_cache_tag, "typechecker_hash", None)
+    if typechecker_hash is None:
+        return cache_from_source(path, debug_override, optimization=optimization)
+    else:
+        return _optimized_cache_from_source(typechecker_hash, path, debug_override)
+
+
+@contextlib.contextmanager
+def _patch_cache_from_source(typechecker_hash):
+    global _cache_patch_count, _cache_patch_original
+    with _cache_patch_lock:
+        if _cache_patch_count == 0:
+            _cache_patch_original = importlib._bootstrap_external.cache_from_source
+            importlib._bootstrap_external.cache_from_source = (
+                _thread_aware_cache_from_source
+            )
+        _cache_patch_count += 1
+    previous_hash = getattr(_cache_tag, "typechecker_hash", None)
+    _cache_tag.typechecker_hash = typechecker_hash
+    try:
+        yield
+    finally:
+        _cache_tag.typechecker_hash = previous_hash
+        with _cache_patch_lock:
+            _cache_patch_count -= 1
+            if _cache_patch_count == 0:
+                importlib._bootstrap_external.cache_from_source = (
+                    _cache_patch_original
+                )
+                _cache_patch_original = None
 
 
 class _JaxtypingFinder(MetaPathFinder):
